@@ -39,7 +39,7 @@ Print Assumptions C16_worker_handoff_faithful.
    address, no computed worker number, no drop) *)
 From VF Require Model.MirrorDispatch Proofs.MirrorDispatchProofs Gen.Dispatch.
 Theorem C16_dispatcher_is_the_modelled_one : forall p st lp, In (p, st, lp) Gen.Dispatch.dispatchers ->
-  st = ["if dst.To4() != nil then ch4 else ch6"]%string /\ lp = ["recv"; "if msg.raddr.IP.To4() != nil then ch4 else ch6"]%string.
+  st = ["if dst.To4() != nil then Q4 else Q6"]%string /\ lp = ["recv"; "if msg.raddr.IP.To4() != nil then Q4 else Q6"]%string.
 Proof.
   intros p st lp Hin. unfold Gen.Dispatch.dispatchers in Hin. cbn [In] in Hin.
   repeat (destruct Hin as [Hin|Hin]; [injection Hin as _ <- <-; split; reflexivity|]). contradiction.
